@@ -166,13 +166,15 @@ static void zero_draws ()
     static const int first[]  = {10, 2, 11, 6, 9, 2};          // gauss first
     static const int second[] = {2, 10, 11, 6, 9, 2};          // one draw, then gauss
     static const int sphere[] = {11, 10, 6, 9, 2, 2};          // gaussSphere first
+    // The positions are found from the integer draw of a twin generator (same seed, same position), so that they do not
+    // depend on how nextf() packs its result: all low bits clear -> the smallest draw, all low 24 bits set -> the largest.
     int found = 0, top = 0;
-    for (uint64_t sd = 0; sd < (1ull << 27) && (found < 3 || top < 4); ++sd)
+    for (uint64_t sd = 0; sd < (1ull << 28) && (found < 3 || top < 4); ++sd)
     {
-        Rand32 g ((unsigned long) sd);
-        float  a = g.nextf ();
-        if (a == 1.0f - std::ldexp (1.0f, -23) && top < 4)
-        {   // the largest value below one: every mantissa bit of the draw is set
+        Rand32 twin ((unsigned long) sd);
+        unsigned long bits = twin.nexti ();
+        if ((bits & 0xffffffUL) == 0xffffffUL && top < 4)
+        {
             char id2[32];
             snprintf (id2, sizeof id2, "t32_%d", top);
             static const int draws[] = {2, 2, 5, 10, 6, 2};
@@ -180,7 +182,7 @@ static void zero_draws ()
             ++top;
             continue;
         }
-        if (a != 0.0f || found >= 3) continue;
+        if ((bits & 0x7fffffUL) != 0 || found >= 3) continue;
         char id[32];
         snprintf (id, sizeof id, "z32_%d", found);
         Ops<Rand32, float>::run ("Rand32", id, 0, sd, 1, 6, found == 0 ? first : (found == 1 ? sphere : second));
